@@ -70,7 +70,8 @@ func c19Downstream(r []rune, what int) {
 			nd.Assert(cfg.Fprint(&b, c) == nil, "Fprint of a comment reports no error")
 		}
 	case 2, 3:
-		env := interp.NewExecEnv("sh", "p1", "")
+		// zero, one or two positional parameters
+		env := [](*interp.ExecEnv){interp.NewExecEnv("sh"), interp.NewExecEnv("sh", ""), interp.NewExecEnv("sh", "p1", "")}[nd.Choice(3)]
 		var mode interp.ExpMode
 		if what == 2 {
 			// every bit pattern of mode and options
@@ -108,6 +109,7 @@ func holeTemplate() []rune {
 func C19_Measure_T1() { c19Downstream(holeTemplate(), 0) }
 func C19_Print_T1()   { c19Downstream(holeTemplate(), 1) }
 func C19_Expand_T1()  { c19Downstream(holeTemplate(), 3) }
+func C19_Expand_T0Q() { c19Downstream([]rune(Templates[nd.Choice(len(Templates))]), 3) }
 func C19_Expand_T0()  { c19Downstream([]rune(Templates[nd.Choice(len(Templates))]), 2) }
 
 func C19_Option() {
